@@ -270,8 +270,9 @@ func genLink(t *rapid.T, names []string, label string, bases ...string) *model.N
 func genCase(t *rapid.T) Case {
 	n := rapid.IntRange(0, 5).Draw(t, "ntypes")
 	names := []string{"@main"}
+	// (names that are prefixes of one another: @t0 / @t00, @t1 / @t10 - a choice is a list of names, not a text to search)
 	for i := 0; i < n; i++ {
-		names = append(names, fmt.Sprintf("@t%d", i))
+		names = append(names, []string{"@t0", "@t00", "@t1", "@t10", "@t2"}[i])
 	}
 	// object types made to be inherited from (keys of their own; @b1 may inherit from @b0), and a string type
 	// whose example reads like a property name that objects write out
